@@ -16,10 +16,10 @@ from impl.hashseed_worker import status_view
 from props import parse_common as pc
 
 LEVEL = 'proof'
-MODULES = ['Pysmi.Props.C12', 'Pysmi.Pins.Lex']
-LAKE_TARGETS = ['Pysmi.Props.C12', 'Pysmi.Pins.Lex']
+MODULES = ['Pysmi.Props.C12', 'Pysmi.Pins.Lex', 'Pysmi.Pins.SkelC12']
+LAKE_TARGETS = ['Pysmi.Props.C12', 'Pysmi.Pins.Lex', 'Pysmi.Pins.SkelC12']
 CLASSES = ['symtable', 'intermediate', 'pysnmp', 'jsondoc', 'parser', 'compiler']
-THEOREMS = (['Pysmi.Obj.C12_history_independent', 'Pysmi.Obj.C12_leak_witness', 'Pysmi.Obj.parseFrom_fresh',
+THEOREMS = (['Pysmi.Pins.SkelC12.pin_lexerReset', 'Pysmi.Obj.C12_history_independent', 'Pysmi.Obj.C12_leak_witness', 'Pysmi.Obj.parseFrom_fresh',
              'Pysmi.Obj.C12_parser_history_independent', 'Pysmi.Obj.C12_sorted_order_free', 'Pysmi.Obj.C12_unsorted_witness'] +
             ['Pysmi.Generated.Fields.C12_covered_%s' % c for c in CLASSES] +
             ['Pysmi.Generated.Fields.pin_setIterations_%s' % c for c in CLASSES])
